@@ -51,7 +51,8 @@ func TestVerifConfWatchEvents(t *testing.T) {
 		{kemtypes.WatchEventModified, kemtypes.WatchEventDeleted},
 		{},
 	}
-	filters := []string{"", ".metadata.labels"}
+	// the third filter emits two objects: the projection is made of both outputs
+	filters := []string{"", ".metadata.labels", ".metadata.labels, .data"}
 	// all step sequences of length <= maxLen over a small alphabet
 	alphabet := []vcStep{
 		{kemtypes.WatchEventAdded, "a", "x", "1", false},
@@ -118,7 +119,7 @@ func TestVerifConfWatchEvents(t *testing.T) {
 							o := vcObj(st.name, st.label, st.data)
 							rid := "default/ConfigMap/" + st.name
 							p := st.label + "|" + st.data
-							if jqf != "" {
+							if jqf == ".metadata.labels" {
 								p = st.label
 							}
 							desc = append(desc, fmt.Sprintf("%s(%s l=%s d=%s)", st.kind, st.name, st.label, st.data))
@@ -181,5 +182,5 @@ func TestVerifConfWatchEvents(t *testing.T) {
 			}
 		}
 	}
-	fmt.Printf("CONF-STATS evaluated=%d scope=real resourceInformer fed directly: every sequence of <= %d notifications over 7 (add/modify/delete of 2 objects, label and data variants, one stale delete) x 4 executeHookOnEvent sets x jqFilter none/labels x keepFullObjectsInMemory x callback enabled/buffered; fired events and cache compared with a reference model of 'projection changed'\n", evaluated, maxLen)
+	fmt.Printf("CONF-STATS evaluated=%d scope=real resourceInformer fed directly: every sequence of <= %d notifications over 7 (add/modify/delete of 2 objects, label and data variants, one stale delete) x 4 executeHookOnEvent sets x jqFilter none / labels / two outputs (labels, data) x keepFullObjectsInMemory x callback enabled/buffered; fired events and cache compared with a reference model of 'projection changed'\n", evaluated, maxLen)
 }
